@@ -1,11 +1,14 @@
 import Zlink.Proofs.Server
+import Zlink.Proofs.ServerQuiet
 import Zlink.Properties.C08
 /-! # C10 — Streaming replies are delivered in order and the connection resumes afterwards
 
 Same model as C08. A streaming call (`Desc.sub n`) moves its connection from `conns` to `streams`
-together with the service's items; each loop iteration with no call ready writes the next item of the
-stream at the rotated index; an exhausted stream hands its connection back to `conns` with its receive
-state untouched. -/
+together with the service's items; each loop iteration with no call ready runs `SelectAll` over the streams'
+`next()` futures from the rotated start and writes the item of the first stream that has one **ready**
+(readiness is an environment event: `Ev.produce id n` lets the service's stream for client `id` hand over `n`
+more results; a stream with nothing ready is pending and polling it changes nothing); an exhausted stream
+hands its connection back to `conns` with its receive state untouched. -/
 namespace C10
 open Rx Srv
 
@@ -74,6 +77,52 @@ theorem C10_others_served (C : Consts) (sizes : Nat → Nat) (s s' : S) (hq : s.
         · cases h; exact ⟨Nat.le_refl _, rfl⟩
         · split at h <;> cases h <;> exact ⟨Nat.le_refl _, rfl⟩
 
+
+/-- **While a stream is open other clients are served to completion.** In EVERY reachable state in which the
+    server loop can make no progress — reply streams may be open, waiting for their service for as long as it
+    likes — every well-behaved connection that is not itself streaming and whose bytes have all arrived has had
+    **all** its calls answered, and every result any open stream had ready has been forwarded (its readiness
+    is used up). An open, silent stream holds nobody up. -/
+theorem C10_open_stream_blocks_nobody (C : Consts) (hstep : 0 < C.step) (sizes : Nat → Nat)
+    (evs : List Srv.Ev) (hev : Srv.EvsOK C sizes evs init)
+    (hidle : iter C sizes (runEvs C sizes evs init) = none) :
+    let s := runEvs C sizes evs init
+    (∀ p ∈ s.streams, p.2.credit = 0) ∧
+    ∀ c ∈ s.conns, c.good = true → c.fut = [] → c.calls = [] ∧ c.out = expectedOut c.descs := by
+  intro s
+  have := C08.C08_quiescent C hstep sizes evs hev hidle
+  exact ⟨this.2.1, this.2.2⟩
+
+/-- A stream that has nothing ready is not touched by the loop, whatever else the iteration does: it is
+    still in the stream list afterwards, same items to come, same connection state. -/
+theorem C10_pending_stream_untouched (C : Consts) (sizes : Nat → Nat) (s s' : S)
+    (h : iter C sizes s = some s') : ∀ p ∈ s.streams, p.2.credit = 0 → p ∈ s'.streams :=
+  iter_streams_others_untouched C sizes s s' h
+
+/-- Among several open streams the one served is `SelectAll`'s pick among those with a result ready, started
+    right after the previous stream winner: the ready stream of minimal rotation distance (so a stream that
+    always has items cannot starve another ready one: `Sel.no_double` applies verbatim). -/
+theorem C10_stream_rotation (C : Consts) (sizes : Nat → Nat) (s s' : S) (hq : s.listenQ = [])
+    (hnone : (if s.conns.length = 0 then (s.conns, none) else
+        scanCalls C sizes s.conns.length (nextStart s) s.conns.length s.conns).2 = none)
+    (h : iter C sizes s = some s') (w : Nat) (hw : s'.lastStream = some w) :
+    streamReady s.streams w = true ∧ w < s.streams.length ∧
+    ∀ x, x < s.streams.length → streamReady s.streams x = true →
+      Sel.dist s.streams.length (streamStart s.lastStream) w ≤ Sel.dist s.streams.length (streamStart s.lastStream) x := by
+  have hr := (iter_stream_rotation C sizes s s' hq hnone h).1
+  rw [hw] at hr
+  cases hsel : Sel.selectAll s.streams.length (some (streamStart s.lastStream)) (streamReady s.streams) with
+  | none => rw [hsel] at hr; cases hr
+  | some w' =>
+    rw [hsel] at hr
+    simp only [Option.map_some, Option.some.injEq] at hr
+    subst hr
+    have hn : 0 < s.streams.length := by
+      rcases Nat.eq_zero_or_pos s.streams.length with h0 | h0
+      · simp [Sel.selectAll, h0] at hsel
+      · exact h0
+    exact Sel.select_min _ _ _ hn _ hsel
+
 /-- If the client becomes unwritable mid-stream only that subscription is dropped: every other
     connection keeps its invariant (instance of `iter_inv`; the dropped one goes to `dead`). -/
 theorem C10_unwritable_drops_only_subscription (C : Consts) (hstep : 0 < C.step) (sizes : Nat → Nat) (s s' : S)
@@ -89,6 +138,18 @@ def a : Conn := C08.Example.conn 0 [[1], [2]] [.sub 3 0, .echo 5 false]
 def b : Conn := C08.Example.conn 1 [[3]] [.echo 9 false]
 def evs : List Srv.Ev := [.connect a, .connect b, .arrive 0 [1, 0, 2, 0], .run 3, .arrive 1 [3, 0], .run 50]
 example : (runEvs C (fun _ => 100) evs init).all.map (fun c => (c.id, c.out)) =
+    [(1, [.R 9]), (0, [.I 0 (some true), .I 1 (some true), .I 2 (some false), .R 5])] := by decide
+/-- a stream that stays silent: client 0's streaming call is accepted, its service hands over one item and
+    then nothing; client 1 is served to completion meanwhile, the server goes idle with the stream still open
+    (hypotheses of `C10_open_stream_blocks_nobody`), and when the service produces again the rest follows and
+    the pipelined call behind the stream is answered -/
+def a0 : Conn := { a with credit := 0 }
+def evs2 : List Srv.Ev := [.connect a0, .connect b, .arrive 0 [1, 0, 2, 0], .run 50, .produce 0 1, .arrive 1 [3, 0], .run 50]
+example : (runEvs C (fun _ => 100) evs2 init).all.map (fun c => (c.id, c.out)) =
+    [(1, [.R 9]), (0, [.I 0 (some true)])] := by decide
+example : iter C (fun _ => 100) (runEvs C (fun _ => 100) evs2 init) = none
+    ∧ (runEvs C (fun _ => 100) evs2 init).streams.length = 1 := by decide
+example : (runEvs C (fun _ => 100) (evs2 ++ [.produce 0 3, .run 50]) init).all.map (fun c => (c.id, c.out)) =
     [(1, [.R 9]), (0, [.I 0 (some true), .I 1 (some true), .I 2 (some false), .R 5])] := by decide
 end Example
 end C10
